@@ -34,7 +34,7 @@ LEVEL_TEXT = (
     "Exploration: every single-bit flip, truncation and prefix drop of the sealed bytes and of the base64 text of a "
     "sample of real cursor/call tokens (exhaustive per sampled token), plus substitutions, extensions, re-encodings, "
     "cursor/call swaps, cross-stream pairs, an adversarial identity table (all ordered pairs), key lengths 0..64 and a "
-    "logical clock at TTL-1/TTL/TTL+1 were presented to the real WSGI app; each presentation was judged on status, "
+    "logical clock at TTL-1/TTL/TTL+1 (one worker without cache; two workers with caches, the second refilled by a turn at TTL-1) were presented to the real WSGI app; each presentation was judged on status, "
     "hook invocations and deserialisation counters. Held means no counterexample among those executions; "
     "injectivity of the identity binding and confidentiality are sampled (collision-freeness over the table, canary search), not established."
 )
